@@ -1,6 +1,6 @@
 """C08 — Builder serialisation: capture / replay coverage clauses (DESIGN.md section 3 / C08)."""
 import re
-from lib import cfg, core
+from lib import cfg, core, nodeadd
 from lib.must import Must
 
 UNIT = "asmjit/core/builder.cpp"
@@ -385,6 +385,8 @@ def run(chk):
         chk.ob(R7, c + "::finalize", calls == ref_set and len(ref_set) >= 1, loc="%s:%d" % (fn.file.replace("/repo/", ""), fn.line),
                detail="%s::finalize configures its Assembler with %s; its siblings also call %s" % (c, sorted(calls), sorted(ref_set - calls)),
                key="finalizesiblings|%s" % c)
+
+    nodeadd.run(chk)
 
     return chk.finish(
         level="other",
